@@ -339,6 +339,11 @@ func (r *Run) Finish(verifDir string, findings []Finding, expect map[string]int,
 		fmt.Printf("VACUOUS %s\n", v)
 	}
 	exit := 0
+	// a scratch variant of the repository (LW_REPO: seeds, benign refactorings) keeps its evidence and replays inside
+	// the variant: /verif/evidence only ever describes /repo itself
+	if d := os.Getenv("LW_REPO"); d != "" && filepath.Clean(d) != "/repo" {
+		verifDir = filepath.Join(d, ".lwverif")
+	}
 	os.MkdirAll(filepath.Join(verifDir, "replays"), 0o755)
 	for _, o := range viol {
 		h := sha256.Sum256([]byte(o.Key))
